@@ -2,8 +2,11 @@ import QF.Props.Tie
 /-! # C07 -/
 namespace QF.Props.C07
 
-/-- T1: the functions this property's mirror model follows have today the source text the model was written against. -/
-theorem tie : Tie.sameAll ["qframe.Eval", "qframe.tempColName", "qframe.newColConstExpr", "qframe.colConstExpr.execute", "qframe.exprExpr1.execute", "qframe.exprExpr2.execute", "qframe.colColExpr.execute", "qframe.unaryExpr.execute", "qframe.constExpr.execute", "qframe.getFunc", "qframe.Expr"] = true := by decide
+/-- T1: the functions this property's mirror model follows have today the source text the model was written against.
+The decoder (`newExpr` and the constructors it calls, among them `newColConstExpr`) and `Expr` are no longer compared as
+text: their meaning is regenerated as `Gen.newExprAst` / `Gen.exprFoldAst` and proved equal to the spec's reading in
+`QF.Props.C07Decode.gen_expr_decode_semantics` / `gen_expr_fold`. -/
+theorem tie : Tie.sameAll ["qframe.Eval", "qframe.tempColName", "qframe.colConstExpr.execute", "qframe.exprExpr1.execute", "qframe.exprExpr2.execute", "qframe.colColExpr.execute", "qframe.unaryExpr.execute", "qframe.constExpr.execute", "qframe.getFunc"] = true := by decide
 
 /-- The default evaluation context (operand type, arity, name ↦ function) is the one the spec's `evalUnary` /
 `evalBinary` were written against. -/
